@@ -38,15 +38,23 @@ import (
 	"verif/harness/hx"
 )
 
-// Cmd is one command of a body: a probe, or a nested submission (pip:run) whose own body
-// consists of probes only.
+// Cmd is one command of a body: a probe, a nested submission (pip:run) whose own body
+// consists of probes only, or a detached submission ("spawn": a harness command that calls
+// Runner.Run itself with a scope that is NOT a child of its own command scope, so the
+// submitting task does not wait for the spawned one and may finish first).
 type Cmd struct {
-	Kind string   `json:"kind"`           // "probe" | "run"
+	Kind string   `json:"kind"`           // "probe" | "run" | "spawn"
 	Us   int      `json:"us,omitempty"`   // probe: duration in microseconds (0 = one Gosched)
 	Fail string   `json:"fail,omitempty"` // probe: "" | "return" (callback returns an error) | "append" (error appended to the command scope)
 	Name string   `json:"name,omitempty"` // run: local name of the nested task
 	Wait []string `json:"wait,omitempty"` // run: local wait names (earlier nested siblings, itself, or a name nobody has)
 	Body []Cmd    `json:"body,omitempty"` // run: body of the nested task (probes)
+	// spawn: Name is the (global, top-level) name of the detached task, Wait holds global
+	// names (earlier top-level tasks, the submitting task, itself, or a name nobody has),
+	// Body its probes. Scope (isolated mode only): "own" = a fresh isolated-context child of
+	// the root scope, "group" = the isolated scope of the submitting top-level task. In
+	// shared mode the detached task is always submitted into the root scope.
+	Scope string `json:"scope,omitempty"`
 }
 
 // Sub is one top-level submission made by the driver goroutine through Runner.Run.
@@ -114,7 +122,40 @@ func Gen(rt *rapid.T) Case {
 		}
 		nb := 1 + hx.Uniform(rt, 4, "nbody")
 		nested := 0
+		spawned := 0
 		for k := 0; k < nb; k++ {
+			if spawned < 2 && high(rt, 14, "spawn") {
+				d := Cmd{Kind: "spawn", Name: fmt.Sprintf("%sd%d", s.Name, spawned), Scope: []string{"own", "group"}[hx.Uniform(rt, 2, "dscope")]}
+				for _, w := range valid {
+					if high(rt, waitPct/2, "dwaits") && len(d.Wait) < 3 {
+						d.Wait = append(d.Wait, w)
+					}
+				}
+				if invalid == "" && high(rt, 25, "dwaitparent") {
+					d.Wait = append(d.Wait, s.Name)
+				}
+				if high(rt, 10, "dinvalid") {
+					bad := "zz"
+					if hx.Uniform(rt, 2, "dinvkind") == 1 {
+						bad = d.Name
+					}
+					d.Wait = insertAt(d.Wait, bad, hx.Uniform(rt, len(d.Wait)+1, "dinvpos"))
+				}
+				m := 1 + hx.Uniform(rt, 3, "dnbody")
+				for j := 0; j < m; j++ {
+					pc := genProbe(rt)
+					if high(rt, 50, "dlong") {
+						pc.Us = []int{1000, 2000, 3000, 4000}[hx.Uniform(rt, 4, "dus")]
+					}
+					d.Body = append(d.Body, pc)
+				}
+				if high(rt, failPct, "dfail") {
+					d.Body[hx.Uniform(rt, m, "dfailpos")].Fail = failKind(rt)
+				}
+				s.Body = append(s.Body, d)
+				spawned++
+				continue
+			}
 			if nested < 2 && high(rt, 12, "nested") {
 				r := Cmd{Kind: "run", Name: fmt.Sprintf("n%d", nested)}
 				for j := 0; j < nested; j++ {
@@ -191,6 +232,78 @@ type run struct {
 	mu     sync.Mutex
 	events []event
 	probes map[string]probeSpec
+
+	// detached submissions
+	spawns      map[string]spawnSpec // by command id
+	spawnRes    map[string]spawnResult
+	groupScopes map[int]app.Scope // isolated mode: scope of the top-level submission #i
+	waitStarted atomic.Bool       // the driver is in (or past) TasksManager.Wait
+	mode        string
+	root        app.Scope
+	runner      pipservices.Runner
+	cwd         filesystem.Filespace
+	ns          pipservices.Namespaces
+}
+
+type spawnSpec struct {
+	top    int // index of the submitting top-level submission
+	name   string
+	wait   []string
+	script string
+	scope  string
+}
+
+type spawnResult struct {
+	refused   bool // Runner.Run returned an error
+	afterWait bool // TasksManager.Wait had already been called when Runner.Run was called
+}
+
+// spawn is the harness command "s id=<id>": a detached submission from inside a body. It
+// behaves like a custom command that uses the runner service: the error of Runner.Run is
+// the result of the command.
+func (r *run) spawn(a app.App, ctx app.IOContext) error {
+	var deps struct {
+		ID string `command:"id"`
+	}
+	if err := ctx.Scope().InjectTo(&deps); err != nil {
+		return err
+	}
+	sp, ok := r.spawns[deps.ID]
+	if !ok {
+		return fmt.Errorf("harness: unknown spawn id %q", deps.ID)
+	}
+	scp := r.root
+	if r.mode == "isolated" {
+		if sp.scope == "group" {
+			r.mu.Lock()
+			scp = r.groupScopes[sp.top]
+			r.mu.Unlock()
+		} else {
+			scp = scope.NewChild(r.root, scope.ChildParams{
+				ContextScope: contextscope.NewIsolated(r.root.BaseContextScope()),
+				Name:         "iso:" + sp.name,
+			})
+		}
+	}
+	after := r.waitStarted.Load()
+	err := r.runner.Run(pipservices.Pip{
+		Context: pipservices.PipContext{
+			In:    gio.NewInput(strings.NewReader(sp.script)),
+			Out:   gio.NewNilOutput(),
+			Err:   gio.NewNilOutput(),
+			CWD:   r.cwd,
+			Scope: scp,
+		},
+		Name:       sp.name,
+		Namespaces: r.ns,
+		Sandbox:    "self",
+		Lock:       commservices.LockMap{},
+		Wait:       append([]string(nil), sp.wait...),
+	})
+	r.mu.Lock()
+	r.spawnRes[deps.ID] = spawnResult{refused: err != nil, afterWait: after}
+	r.mu.Unlock()
+	return err
 }
 
 func (r *run) log(task string, idx int, begin, fail bool) {
@@ -257,6 +370,7 @@ func newApp(r *run) (svc services, err error) {
 		return svc, err
 	}
 	mapp.Terminal().SetCommand(terminal.NewCommand(terminal.CommandParams{Name: "p", Callback: r.probe}))
+	mapp.Terminal().SetCommand(terminal.NewCommand(terminal.CommandParams{Name: "s", Callback: r.spawn}))
 	err = mapp.DependencyProvider().InjectTo(&svc)
 	return svc, err
 }
@@ -276,6 +390,12 @@ type taskInfo struct {
 	accepted bool // top level: Run returned nil; nested: the manager knows it
 	refused  bool // top level only: Run returned an error
 	nested   map[int]*taskInfo
+	detached map[int]*taskInfo // by body index: tasks spawned by "spawn" commands of this body
+	spawn    bool              // this task is a detached one
+	spawnID  string
+	top      int  // index of the (submitting) top-level submission
+	reached  bool // spawn: the spawn command ran (Runner.Run was called)
+	after    bool // spawn: ... after the driver had called TasksManager.Wait
 	events   []event
 	failed   bool // Errors() non-empty once everything finished
 	ownFail  bool // one of its own probes ran and failed
@@ -283,10 +403,21 @@ type taskInfo struct {
 	hasBad   bool // the body contains a nested submission that must be refused
 }
 
-func script(full string, body []Cmd, probes map[string]probeSpec) string {
+func (r *run) script(top int, full string, body []Cmd) string {
+	probes := r.probes
 	var lines []string
 	for i, cmd := range body {
 		switch cmd.Kind {
+		case "spawn":
+			id := fmt.Sprintf("%s.%d", full, i)
+			var nb []string
+			for k, nc := range cmd.Body {
+				pid := fmt.Sprintf("%s.%d", cmd.Name, k)
+				probes[pid] = probeSpec{task: cmd.Name, idx: k, us: nc.Us, fail: nc.Fail}
+				nb = append(nb, "p id="+pid)
+			}
+			r.spawns[id] = spawnSpec{top: top, name: cmd.Name, wait: cmd.Wait, script: strings.Join(nb, "\n"), scope: cmd.Scope}
+			lines = append(lines, "s id="+id)
 		case "run":
 			nfull := full + ":" + cmd.Name
 			var nb []string
@@ -326,6 +457,16 @@ func wellFormed(c Case) bool {
 		return s[0] >= 'a' && s[0] <= 'z'
 	}
 	for _, s := range c.Subs {
+		for _, cmd := range s.Body {
+			if cmd.Kind == "spawn" {
+				if !okName(cmd.Name) || seen[cmd.Name] || len(cmd.Body) == 0 || (cmd.Scope != "own" && cmd.Scope != "group") {
+					return false
+				}
+				seen[cmd.Name] = true
+			}
+		}
+	}
+	for _, s := range c.Subs {
 		if !okName(s.Name) || seen[s.Name] || len(s.Body) == 0 {
 			return false
 		}
@@ -339,6 +480,17 @@ func wellFormed(c Case) bool {
 		for _, cmd := range s.Body {
 			switch cmd.Kind {
 			case "probe":
+			case "spawn":
+				for _, w := range cmd.Wait {
+					if !okName(w) {
+						return false
+					}
+				}
+				for _, nc := range cmd.Body {
+					if nc.Kind != "probe" {
+						return false
+					}
+				}
 			case "run":
 				if !okName(cmd.Name) || nseen[cmd.Name] || len(cmd.Body) == 0 {
 					return false
@@ -393,7 +545,7 @@ func exec(c Case) hx.Verdict {
 	if c.Gomaxprocs > 0 {
 		defer runtime.GOMAXPROCS(runtime.GOMAXPROCS(c.Gomaxprocs))
 	}
-	r := &run{probes: map[string]probeSpec{}}
+	r := &run{probes: map[string]probeSpec{}, spawns: map[string]spawnSpec{}, spawnRes: map[string]spawnResult{}, groupScopes: map[int]app.Scope{}, mode: c.Mode}
 	svc, err := newApp(r)
 	if err != nil {
 		v := hx.Pass()
@@ -418,18 +570,33 @@ func exec(c Case) hx.Verdict {
 		return hx.Fail("bootstrap", "TasksUnit.FromScope: %v", err)
 	}
 	ns := namespaces.NewNamespaces(pipservices.NamasepacesParams{Task: "", Lock: ""})
+	r.root, r.runner, r.cwd, r.ns = root, svc.Runner, cwd, ns
 
 	// ---- static part of the model
 	tops := make([]*taskInfo, len(c.Subs))
 	scripts := make([]string, len(c.Subs))
+	openGroup := map[int]bool{}
+	nextGroup := len(c.Subs)
 	for i, s := range c.Subs {
-		t := &taskInfo{full: s.Name, wait: s.Wait, body: s.Body, nested: map[int]*taskInfo{}}
+		t := &taskInfo{full: s.Name, wait: s.Wait, body: s.Body, nested: map[int]*taskInfo{}, detached: map[int]*taskInfo{}, top: i}
 		if c.Mode == "isolated" {
 			t.group = i
 		}
-		scripts[i] = script(s.Name, s.Body, r.probes)
+		scripts[i] = r.script(i, s.Name, s.Body)
 		sib := map[string]bool{}
 		for k, cmd := range s.Body {
+			if cmd.Kind == "spawn" {
+				d := &taskInfo{full: cmd.Name, parent: t, group: t.group, wait: cmd.Wait, body: cmd.Body, spawn: true,
+					spawnID: fmt.Sprintf("%s.%d", s.Name, k), top: i}
+				if c.Mode == "isolated" {
+					if cmd.Scope != "group" {
+						d.group = nextGroup
+						nextGroup++
+					}
+				}
+				t.detached[k] = d
+				continue
+			}
 			if cmd.Kind != "run" {
 				continue
 			}
@@ -485,6 +652,9 @@ func exec(c Case) hx.Verdict {
 						ContextScope: contextscope.NewIsolated(root.BaseContextScope()),
 						Name:         "iso:" + s.Name,
 					})
+					r.mu.Lock()
+					r.groupScopes[i] = scp
+					r.mu.Unlock()
 				}
 				rerr := svc.Runner.Run(pipservices.Pip{
 					Context: pipservices.PipContext{
@@ -508,16 +678,32 @@ func exec(c Case) hx.Verdict {
 				time.Sleep(time.Duration(c.WaitDelayUs) * time.Microsecond)
 			}
 			phase.Store("TasksManager.Wait")
+			r.waitStarted.Store(true)
 			waitErr = manager.Wait()
 			waitSnap = len(r.snapshot())
-			// settle: every task the manager knows is waited for individually, so that the log
-			// is final and Errors() is stable when the oracle reads them
+			// settle: every task the manager knows is waited for individually (repeated until no
+			// new task shows up), so that the log is final and Errors() is stable when the
+			// oracle reads them
 			phase.Store("Task.Wait of the tasks listed by the manager after TasksManager.Wait returned")
-			names = manager.Names()
+			for {
+				names = manager.Names()
+				fresh := false
+				for _, n := range names {
+					if known[n] {
+						continue
+					}
+					if t, ok := manager.Get(n); ok {
+						t.Wait()
+						known[n] = true
+						fresh = true
+					}
+				}
+				if !fresh {
+					break
+				}
+			}
 			for _, n := range names {
 				if t, ok := manager.Get(n); ok {
-					t.Wait()
-					known[n] = true
 					failedBy[n] = len(t.Errors()) != 0
 				}
 			}
@@ -560,6 +746,47 @@ func exec(c Case) hx.Verdict {
 			nt.accepted = known[nt.full]
 			all[nt.full] = nt
 			order = append(order, nt)
+		}
+		ks = ks[:0]
+		for k := range t.detached {
+			ks = append(ks, k)
+		}
+		sort.Ints(ks)
+		for _, k := range ks {
+			d := t.detached[k]
+			r.mu.Lock()
+			res, ok := r.spawnRes[d.spawnID]
+			r.mu.Unlock()
+			if ok {
+				d.reached, d.after = true, res.afterWait
+				d.refused = res.refused
+				d.accepted = !res.refused
+				if d.accepted && d.group == t.group && c.Mode == "isolated" {
+					// errors can reach this group after its top-level task finished
+					openGroup[t.group] = true
+				}
+			}
+			all[d.full] = d
+			order = append(order, d)
+		}
+	}
+	// admission class of the detached submissions: names that must exist when the spawn
+	// command runs are the submitting task and the top-level tasks submitted before it
+	for _, d := range order {
+		if !d.spawn {
+			continue
+		}
+		for _, w := range d.wait {
+			wt := all[w]
+			switch {
+			case w == d.full || wt == nil:
+				d.invalid = true
+			case wt.parent != nil || wt.top > d.top || !wt.accepted:
+				d.loose = true // may or may not exist at that moment / its own submission was refused
+			}
+		}
+		if d.invalid {
+			d.parent.hasBad = true
 		}
 	}
 	for _, t := range order {
@@ -613,8 +840,40 @@ func exec(c Case) hx.Verdict {
 		}
 	}
 	for _, t := range order {
-		if t.parent != nil && t.invalid && len(t.events) != 0 {
+		if t.parent != nil && !t.spawn && t.invalid && len(t.events) != 0 {
 			return fail("refuse-invalid", "nested submission %s waits for %v (itself or a task that does not exist) and its body ran", t.full, t.wait)
+		}
+	}
+	for _, d := range order {
+		if !d.spawn {
+			continue
+		}
+		if !d.reached || d.refused {
+			if len(d.events) != 0 || known[d.full] {
+				return fail("refused-ran", "detached submission %s was never made or was refused, but the task exists", d.full)
+			}
+		}
+		if d.parent.refused && d.reached {
+			return fail("refused-ran", "submission %s was refused but its body ran (it submitted %s)", d.parent.full, d.full)
+		}
+		if !d.reached {
+			continue
+		}
+		// may the scope the task is submitted into be done already? shared: the one scope
+		// after any failure; isolated "group": the submitter's scope after a failure in that
+		// group; isolated "own": a fresh scope, never
+		scopeMayBeDone := (c.Mode == "shared" && anyFailed) || (c.Mode == "isolated" && d.group == d.parent.group && d.parent.failed)
+		switch {
+		case d.invalid && d.accepted:
+			return fail("refuse-invalid", "detached submission %s waits for %v (itself or a task that does not exist) and was accepted", d.full, d.wait)
+		case !d.invalid && !d.loose && d.refused && !scopeMayBeDone:
+			return fail("spurious-refusal", "detached submission %s (wait list %v, all existing tasks) was refused although nothing failed in its scope", d.full, d.wait)
+		}
+	}
+	// an accepted submission is a task of the manager (otherwise nobody could wait for it)
+	for _, t := range order {
+		if (t.parent == nil || t.spawn) && t.accepted && !known[t.full] {
+			return fail("accepted-unknown", "Runner.Run accepted %s but the task manager does not list it", t.full)
 		}
 	}
 
@@ -625,7 +884,7 @@ func exec(c Case) hx.Verdict {
 			return v
 		}
 	}
-	live := func(t *taskInfo) bool { return t.accepted && !(t.parent != nil && t.invalid) }
+	live := func(t *taskInfo) bool { return t.accepted && !(t.parent != nil && !t.spawn && t.invalid) }
 
 	// clause wait-order: "starts executing its body only after every task named in its wait list has finished"
 	for _, t := range order {
@@ -659,7 +918,9 @@ func exec(c Case) hx.Verdict {
 			// w, and that group is finished before w is, so "w has errors" == "w finished with
 			// an error". Inside one group (shared context) errors may arrive after w finished,
 			// there only w's own log counts.
-			if w.ownFail || blocked[w.full] || (w.group != t.group && w.failed) {
+			// A group that also holds a detached task (scope "group") is open: that task can
+			// fail after w finished.
+			if w.ownFail || blocked[w.full] || (w.group != t.group && !openGroup[w.group] && w.failed) {
 				blocked[t.full] = true
 			}
 		}
@@ -672,6 +933,11 @@ func exec(c Case) hx.Verdict {
 		for _, nt := range t.nested {
 			if nt.accepted || len(nt.events) != 0 {
 				return fail("failed-prerequisite", "task %s submitted %s although a task of its wait list %v finished with an error", t.full, nt.full, t.wait)
+			}
+		}
+		for _, d := range t.detached {
+			if d.reached {
+				return fail("failed-prerequisite", "task %s submitted %s although a task of its wait list %v finished with an error", t.full, d.full, t.wait)
 			}
 		}
 		if !t.failed {
@@ -707,12 +973,24 @@ func exec(c Case) hx.Verdict {
 		if t.ownFail || t.hasBad || blocked[t.full] {
 			groupReason[t.group] = true
 		}
+		// a prerequisite that has errors in the end may have had them when it finished (the
+		// runtime then rightly failed t); where that is not certain it is still a possible cause
+		for _, wn := range t.wait {
+			if w := all[wn]; w != nil && live(w) && w.failed {
+				groupReason[t.group] = true
+			}
+		}
 	}
 	for g, f := range groupFailed {
 		if f && !groupReason[g] {
 			who := "the shared scope"
 			if c.Mode == "isolated" {
-				who = "the isolated task " + tops[g].full
+				for _, t := range order {
+					if t.group == g && (t.parent == nil || t.spawn) {
+						who = "the isolated task " + t.full
+						break
+					}
+				}
 			}
 			return fail("spurious-failure", "%s reports errors although no command failed, no nested submission had to be refused and no prerequisite failed", who)
 		}
@@ -777,6 +1055,47 @@ func exec(c Case) hx.Verdict {
 		}
 		if t.ownFail {
 			v.Label("failing-task")
+		}
+		for _, d := range t.detached {
+			if d.invalid && d.reached {
+				v.Label("refused:detached")
+			}
+			if !d.accepted {
+				continue
+			}
+			v.Label("detached-submission")
+			if c.Mode == "isolated" {
+				v.Label("detached-scope:" + c.Subs[i].Body[bodyIndex(t, d)].Scope)
+			}
+			for _, wn := range d.wait {
+				if w := all[wn]; w != nil && w.accepted {
+					edges++
+					v.Label("detached-with-wait-list")
+				}
+			}
+			if d.after {
+				v.Label("detached-registered-while-wait-is-waiting")
+			}
+			if d.ownFail {
+				v.Label("detached-fails")
+			}
+			if blocked[d.full] {
+				v.Label("dependant-of-failed-task-skipped")
+			}
+			if len(d.events) == 0 {
+				continue
+			}
+			dlo, dhi := d.events[0].seq, d.events[len(d.events)-1].seq
+			spans = append(spans, [3]int{dlo, dhi, len(tops) + len(spans)})
+			if hi < dhi {
+				v.Label("detached-outlives-submitter")
+			}
+			if d.after && dhi == len(evs)-1 {
+				v.Label("detached-registered-during-wait-finishes-last")
+				if d.ownFail {
+					v.Label("detached-registered-during-wait-finishes-last-and-fails")
+				}
+			}
 		}
 	}
 	for i := range spans {
@@ -877,6 +1196,14 @@ func checkBody(t *taskInfo, fail func(string, string, ...interface{}) hx.Verdict
 		switch cmd.Kind {
 		case "probe":
 			ev, stops = began[i], cmd.Fail != ""
+		case "spawn":
+			// the result of Runner.Run is the result of the command: a refused detached
+			// submission is a failing command of this body
+			d := t.detached[i]
+			ev, stops = d.reached, d.reached && d.refused
+			if stops {
+				t.ownFail = true
+			}
 		case "run":
 			nt := t.nested[i]
 			if nt.invalid {
@@ -897,6 +1224,15 @@ func checkBody(t *taskInfo, fail func(string, string, ...interface{}) hx.Verdict
 	}
 	t.complete = stopped < 0
 	return hx.Verdict{}, false
+}
+
+func bodyIndex(t, d *taskInfo) int {
+	for k, x := range t.detached {
+		if x == d {
+			return k
+		}
+	}
+	return 0
 }
 
 // renderLog renders the log deterministically: one line per task (sorted by name) with its
